@@ -17,6 +17,9 @@ def trap():
 
 
 class PM:
+    def __bool__(self):
+        return False            # managers are falsy objects throughout the corpus
+
     def __init__(self, i):
         self.i = i
 
@@ -31,6 +34,9 @@ class PM:
 
 
 class APM:
+    def __bool__(self):
+        return False
+
     def __init__(self, i, suspend_in_exit=False):
         self.i = i
         self.suspend_in_exit = suspend_in_exit
